@@ -82,6 +82,16 @@ def cpufreq_sysfs(case):
     return any(c["idx"] == 0 for c in case["cpus"])
 
 
+# ------------------------------------------------------------------ unreadable files
+# ["U"] / ["E"]: open() fails (PermissionError).  ["U", errno] / ["E", errno]: open() succeeds and read() (readline,
+# iteration) raises OSError(errno) -- what sysfs attributes do when the driver cannot answer.
+READ_ERRNOS = ["EIO", "ENXIO", "ENODATA", "ENODEV", "EBUSY"]
+
+
+def unreadable(rng, tag="U"):
+    return [tag] if rng.random() < 0.4 else [tag, rng.choice(READ_ERRNOS)]
+
+
 # ------------------------------------------------------------------ pools
 NAMES = ["coretemp", "acpitz", "nvme", "k10temp", "amdgpu", "it8728", "iwlwifi_1", "pch_cannonlake", "a b", "x86_pkg_temp"]
 LABELS = ["Core 0", "Package id 0", "Composite", "edge", "", "Tctl", "fan1", "CPU Fan"]
@@ -97,7 +107,7 @@ def kf_text(rng, pool, p_present=0.75, p_err=0.1):
     r = rng.random()
     if r < p_present:
         return ["P", rng.choice(pool)]
-    return ["U"] if r < p_present + p_err else ["A"]
+    return unreadable(rng) if r < p_present + p_err else ["A"]
 
 
 def kf_num(rng, pool, p_present=0.7, p_junk=0.08, p_err=0.07, neg=0.15):
@@ -106,7 +116,7 @@ def kf_num(rng, pool, p_present=0.7, p_junk=0.08, p_err=0.07, neg=0.15):
         return ["P", "N", rng.random() < neg, rng.choice(pool)]
     if r < p_present + p_junk:
         return ["P", "J", rng.choice(JUNK)]
-    return ["U"] if r < p_present + p_junk + p_err else ["A"]
+    return unreadable(rng) if r < p_present + p_junk + p_err else ["A"]
 
 
 def raw_num(rng):
@@ -114,7 +124,7 @@ def raw_num(rng):
     if r < 0.15:
         return ["A"]
     if r < 0.22:
-        return ["E"]
+        return unreadable(rng, "E")
     return ["C", rng.choice(["45000\n", "45000", " 45000 \n", "+45\n", "-0\n", "4_5\n", "", "\n", "abc\n", "45.5\n", "1e3\n",
                              "nan\n", "0x10\n", "\udcff\n", "-5000\n", "0\n", "12 34\n", ".5\n", "5.\n", ".\n", "--5\n",
                              "1000\n", "inf\n", "45000\n\n", "\t7\n"])]
@@ -125,7 +135,7 @@ def raw_text(rng):
     if r < 0.15:
         return ["A"]
     if r < 0.22:
-        return ["E"]
+        return unreadable(rng, "E")
     return ["C", rng.choice(["name\n", " name \n", "", "\n", "na me\n", "critical\n", "high\n", "Critical\n", "x", "name\n\n"])]
 
 
@@ -230,16 +240,16 @@ def rename_history_cases(rng, k):
 
 
 
-def single_sensor_cases(values=("45000",), names=("P", "A")):
+def single_sensor_cases(values=("45000",), names=("P", "A", "R")):
     out = []
-    st = {"P": None, "A": ["A"], "U": ["U"]}
+    st = {"P": None, "A": ["A"], "U": ["U"], "R": ["U", "EIO"]}
     for v in values:
         neg = v.startswith("-")
         ds = v.lstrip("-")
-        for i in "PAU":
-            for m in "PAU":
-                for c in "PAU":
-                    for l in "PAU":
+        for i in "PAUR":
+            for m in "PAUR":
+                for c in "PAUR":
+                    for l in "PAUR":
                         for nm in names:
                             for fahr in (False, True):
                                 num = lambda x, d: ["P", "N", neg, d] if x == "P" else st[x]
@@ -282,7 +292,7 @@ def gen_temps_raw(rng):
                         ty = "passive\n"
                     seen.add(key)
                 r = rng.random()
-                trips.append({"idx": j, "type": ["C", ty] if r < 0.85 else (["A"] if r < 0.93 else ["E"]), "temp": raw_num(rng)})
+                trips.append({"idx": j, "type": ["C", ty] if r < 0.85 else (["A"] if r < 0.93 else unreadable(rng, "E")), "temp": raw_num(rng)})
             zones.append({"idx": i, "temp": raw_num(rng), "type": raw_text(rng), "trips": trips})
         zones.sort(key=lambda z: "%s/thermal_zone%d" % (TZ, z["idx"]))
     return {"kind": "temps_raw", "cls": "temps-raw", "fahr": rng.random() < 0.3, "entries": entries, "zones": zones}
@@ -305,10 +315,10 @@ def gen_fans(rng, uniform=True):
 
 def single_fan_cases():
     out = []
-    st = {"A": ["A"], "U": ["U"]}
-    for i in "PAU":
-        for l in "PAU":
-            for nm in "PAU":
+    st = {"A": ["A"], "U": ["U"], "R": ["U", "ENODATA"]}
+    for i in "PAUR":
+        for l in "PAUR":
+            for nm in "PAUR":
                 f = {"n": 1, "input": ["P", "N", False, "1200"] if i == "P" else st[i],
                      "label": ["P", "CPU Fan"] if l == "P" else st[l], "other": True}
                 out.append({"kind": "fans", "cls": "fans-exhaustive",
@@ -328,11 +338,66 @@ def gen_fans_raw(rng):
     return {"kind": "fans_raw", "cls": "fans-raw", "entries": entries}
 
 
+def read_error_cases():
+    """every file of every walker, one at a time, opening fine and failing in read() with each errno; all other files present"""
+    out = []
+    for e in READ_ERRNOS:
+        bad = ["U", e]
+        # temperatures (hwmon + thermal zone), fans
+        for f in ("input", "max", "crit", "label", "name"):
+            sen = {"n": 1, "input": ["P", "N", False, "45000"], "max": ["P", "N", False, "80000"], "crit": ["P", "N", False, "95000"],
+                   "label": ["P", "Core 0"], "other": False}
+            sen2 = dict(sen, n=2, input=["P", "N", False, "46000"])
+            chip = {"dir": "hwmon0", "nested": False, "name": ["P", "coretemp"], "sensors": [sen, sen2]}
+            if f == "name":
+                chip["name"] = bad
+            else:
+                sen[f] = bad
+            out.append({"kind": "temps", "cls": "read-error-temps", "fahr": False, "chips": [chip], "zones": []})
+        for f in ("temp", "type", "trip_type", "trip_temp"):
+            z = {"idx": 0, "temp": ["P", "N", False, "50000"], "type": ["P", "acpitz"],
+                 "trips": [{"idx": 0, "type": ["P", "critical"], "temp": ["P", "N", False, "95000"]},
+                           {"idx": 1, "type": ["P", "high"], "temp": ["P", "N", False, "80000"]}]}
+            if f in ("temp", "type"):
+                z[f] = bad
+            else:
+                z["trips"][0][f[5:]] = bad
+            out.append({"kind": "temps", "cls": "read-error-thermal", "fahr": False, "chips": [],
+                        "zones": [z, {"idx": 1, "temp": ["P", "N", False, "40000"], "type": ["P", "x86_pkg_temp"], "trips": []}]})
+        for f in ("input", "label", "name"):
+            fan = {"n": 1, "input": ["P", "N", False, "1200"], "label": ["P", "CPU Fan"], "other": False}
+            chip = {"dir": "hwmon2", "nested": False, "name": ["P", "it8728"], "fans": [fan, dict(fan, n=2, input=["P", "N", False, "900"])]}
+            if f == "name":
+                chip["name"] = bad
+            else:
+                fan[f] = bad
+            out.append({"kind": "fans", "cls": "read-error-fans", "chips": [chip]})
+        # battery: each of the nine files, and the adapters
+        for f in ("now0", "now1", "power0", "power1", "full0", "full1", "tte", "capacity", "status", "ac0", "ac"):
+            bat = {"now": [["P", "36000000"], ["P", "3000000"]], "power": [["P", "12000000"], ["P", "1000000"]],
+                   "full": [["P", "57000000"], ["P", "4000000"]], "tte": ["A"], "capacity": ["P", "63"], "status": ["P", "StDischarging"]}
+            ac0, ac = ["P", False], ["P", True]
+            if f in ("ac0", "ac"):
+                ac0, ac = (bad, ac) if f == "ac0" else (["A"], bad)
+            elif f[-1] in "01":
+                bat[f[:-1]][int(f[-1])] = bad
+            else:
+                bat[f] = bad
+            ents = [{"name": "BAT0", "bat": bat}, {"name": "AC0", "bat": None}, {"name": "AC", "bat": None}]
+            out.append({"kind": "battery", "cls": "read-error-battery", "dir": True, "entries": ents, "ac0": ac0, "ac": ac})
+        # cpufreq: scaling_cur_freq answers with an error, cpuinfo_cur_freq works
+        for nest in ("policy", "cpu"):
+            cpus = [{"idx": 0, "kind": "on", "cur": [bad, ["P", "2400000"]], "min": "800000", "max": "3600000"},
+                    {"idx": 1, "kind": "on", "cur": [["P", "1200000"], ["A"]], "min": "800000", "max": "3600000"}]
+            out.append({"kind": "cpufreq", "cls": "read-error-cpufreq", "nest": nest, "cpus": cpus, "blocks": []})
+    return out
+
+
 def kdec(rng, pool, p=0.6, pe=0.05):
     r = rng.random()
     if r < p:
         return ["P", rng.choice(pool)]
-    return ["U"] if r < p + pe else ["A"]
+    return unreadable(rng) if r < p + pe else ["A"]
 
 
 def gen_alt(rng, p=0.6):
@@ -347,7 +412,7 @@ def gen_alt(rng, p=0.6):
 def gen_bat(rng):
     st = rng.random()
     status = ["P", rng.choice(["StDischarging", "StCharging", "StFull", "StNotCharging", "StUnknown"])] if st < 0.75 else (
-        ["A"] if st < 0.93 else ["U"])
+        ["A"] if st < 0.93 else unreadable(rng))
     return {"now": gen_alt(rng), "power": gen_alt(rng), "full": gen_alt(rng),
             "tte": kdec(rng, ["0", "5", "120"], 0.12, 0.02), "capacity": kdec(rng, ["0", "1", "55", "88", "100"], 0.5),
             "status": status}
@@ -383,7 +448,7 @@ def kf_bool(rng):
     r = rng.random()
     if r < 0.8:
         return ["P", rng.random() < 0.5]
-    return ["U"] if r < 0.88 else ["A"]
+    return unreadable(rng) if r < 0.88 else ["A"]
 
 
 def battery_subset_cases():
@@ -404,7 +469,7 @@ def raw_small(rng, pool):
     if r < 0.3:
         return ["A"]
     if r < 0.36:
-        return ["E"]
+        return unreadable(rng, "E")
     return ["C", rng.choice(pool)]
 
 
@@ -474,8 +539,9 @@ def gen_cpufreq(rng):
             cpus.append({"idx": i, "kind": "off"})
         else:
             r = rng.random()
-            cur = [["P", rng.choice(KHZ)], ["A"]] if r < 0.5 else ([["A"], ["P", rng.choice(KHZ)]] if r < 0.75 else (
-                [["P", rng.choice(KHZ)], ["P", rng.choice(KHZ)]] if r < 0.93 else [["A"], ["U"]]))
+            cur = [["P", rng.choice(KHZ)], ["A"]] if r < 0.45 else ([["A"], ["P", rng.choice(KHZ)]] if r < 0.65 else (
+                [unreadable(rng), ["P", rng.choice(KHZ)]] if r < 0.78 else (
+                    [["P", rng.choice(KHZ)], ["P", rng.choice(KHZ)]] if r < 0.93 else [["A"], unreadable(rng)])))
             cpus.append({"idx": i, "kind": "on", "cur": cur, "min": rng.choice(KHZ), "max": rng.choice(KHZ)})
     r = rng.random()
     np_ = n if r < 0.35 else (0 if r < 0.6 else rng.choice([1, 2, 3, 5]))
@@ -580,12 +646,13 @@ def gen_cases(rng, tier):
     n = {"quick": 1, "thorough": 14, "search": 2}[tier]
     cases = []
     cases += both_nestings_cases()
+    cases += read_error_cases()
     cases += rename_history_cases(rng, {"quick": 20, "thorough": 200, "search": 20}[tier])
     if tier == "quick":
         cases += single_sensor_cases()
         cases += single_fan_cases()
     elif tier == "thorough":
-        cases += single_sensor_cases(values=("45000", "0", "-5000"), names=("P", "A", "U"))
+        cases += single_sensor_cases(values=("45000", "0", "-5000"), names=("P", "A", "U", "R"))
         cases += single_fan_cases()
         cases += battery_subset_cases()
     cases += [gen_temps(rng) for _ in range(220 * n)]
